@@ -29,6 +29,21 @@ type Outcome struct {
 	AccMeta   []string `json:"acc_meta,omitempty"`
 	HasResult bool     `json:"has_result"` // any posting / metadata returned (even next to an error)
 	NilResult bool     `json:"nil_result"` // RunProgram entry only: result pointer was nil
+
+	raw *interpreter.ExecutionResult // kept for Recheck
+}
+
+// Recheck renders the result object again (later, after other runs have
+// finished) and reports whether it still reads as it did when it was returned.
+func (o Outcome) Recheck() (string, bool) {
+	if o.raw == nil || o.Panic != "" {
+		return "", true
+	}
+	var again Outcome
+	again.Err, again.ErrType = o.Err, o.ErrType
+	fillResult(&again, o.raw)
+	sort.Strings(again.TxMeta)
+	return again.Canon(), again.Canon() == o.Canon()
 }
 
 func (o Outcome) Canon() string {
@@ -170,6 +185,7 @@ func Run(ctx context.Context, pr numscript.ParseResult, vars map[string]string, 
 	}()
 	res, err := pr.RunWithFeatureFlags(ctx, vars, st, flags)
 	fillResult(&o, &res)
+	o.raw = &res
 	fillErr(&o, err)
 	sort.Strings(o.TxMeta)
 	return o
